@@ -49,13 +49,20 @@ def s4(x, y, z, w):
     return _got("s4", locals())
 
 
-FUNCS = {"s0": s0, "s1": s1, "s2": s2, "s3": s3, "s3d": s3d, "sk": sk, "s4": s4}
+@memento_function(cluster=CL, version="1")
+def svk(a, b=1, **extra):
+    """further keywords are collected by a var-keyword parameter: each is a bound argument under its own name"""
+    return _got("svk", dict(a=a, b=b, **extra))
+
+
+FUNCS = {"s0": s0, "s1": s1, "s2": s2, "s3": s3, "s3d": s3d, "sk": sk, "s4": s4, "svk": svk}
 PARAMS = {"s0": [], "s1": ["a"], "s2": ["a", "b"], "s3": ["a", "b", "c"], "s3d": ["a", "b", "c"],
-          "sk": ["a", "k", "j"], "s4": ["x", "y", "z", "w"]}
+          "sk": ["a", "k", "j"], "s4": ["x", "y", "z", "w"], "svk": ["a", "b"]}
 KWONLY = {"sk": {"k", "j"}}
+VARKW = {"svk": ["z", "y", "opt"]}      # names that a var-keyword parameter of the function may collect
 REQUIRED = {"s0": [], "s1": ["a"], "s2": ["a", "b"], "s3": ["a", "b", "c"], "s3d": ["a"], "sk": ["a", "k"],
-            "s4": ["x", "y", "z", "w"]}
-DEFAULTS = {"s3d": {"b": 5, "c": None}, "sk": {"j": 2}}
+            "s4": ["x", "y", "z", "w"], "svk": ["a"]}
+DEFAULTS = {"s3d": {"b": 5, "c": None}, "sk": {"j": 2}, "svk": {"b": 1}}
 
 
 @memento_function(cluster=CL, version="1")
